@@ -44,6 +44,9 @@ pub mod iter {
 
     pub trait FromIter<T>: Sized { spec fn from_seq(&self, s: Seq<T>) -> bool; }
     impl<T> FromIter<T> for Vec<T> { open spec fn from_seq(&self, s: Seq<T>) -> bool { self@ == s } }
+    impl<T> FromIter<T> for crate::shims::std::collections::HashSet<T> {
+        open spec fn from_seq(&self, s: Seq<T>) -> bool { crate::shims::std::collections::hashset_from(*self, s) }
+    }
 
     impl<T> Iter<T> {
         #[verifier::external_body]
@@ -87,6 +90,30 @@ pub mod iter {
             requires !self@.endless, forall|b: B, t: T| call_requires(f, (b, t)),
             ensures forall|g: spec_fn(B, T) -> B| (forall|b: B, t: T, o: B| #[trigger] call_ensures(f, (b, t), o) ==> o == g(b, t)) ==> r == #[trigger] sfold(self@.items, init, g),
         { unimplemented!() }
+        // ---- adapters without a contract (results unconstrained): present so that code using
+        // them still type-checks; nothing can be proved about what they return
+        #[verifier::external_body]
+        pub fn filter<P: FnMut(&T) -> bool>(self, p: P) -> (r: Iter<T>) requires forall|t: &T| call_requires(p, (t,)) { unimplemented!() }
+        #[verifier::external_body]
+        pub fn any<P: FnMut(T) -> bool>(&mut self, p: P) -> (r: bool) requires forall|t: T| call_requires(p, (t,)) { unimplemented!() }
+        #[verifier::external_body]
+        pub fn all<P: FnMut(T) -> bool>(&mut self, p: P) -> (r: bool) requires forall|t: T| call_requires(p, (t,)) { unimplemented!() }
+        #[verifier::external_body]
+        pub fn find<P: FnMut(&T) -> bool>(&mut self, p: P) -> (r: Option<T>) requires forall|t: &T| call_requires(p, (t,)) { unimplemented!() }
+        #[verifier::external_body]
+        pub fn last(self) -> (r: Option<T>) { unimplemented!() }
+        #[verifier::external_body]
+        pub fn count(self) -> (r: usize) { unimplemented!() }
+        #[verifier::external_body]
+        pub fn skip(self, n: usize) -> (r: Iter<T>) { unimplemented!() }
+        #[verifier::external_body]
+        pub fn take(self, n: usize) -> (r: Iter<T>) { unimplemented!() }
+        #[verifier::external_body]
+        pub fn chain(self, other: Iter<T>) -> (r: Iter<T>) { unimplemented!() }
+        #[verifier::external_body]
+        pub fn enumerate(self) -> (r: Iter<(usize, T)>) { unimplemented!() }
+        #[verifier::external_body]
+        pub fn for_each<F: FnMut(T)>(self, f: F) requires forall|t: T| call_requires(f, (t,)) { unimplemented!() }
         /// Iterator::next / StreamExt::next (after R2)
         #[verifier::external_body]
         pub fn next(&mut self) -> (r: Option<T>)
@@ -108,6 +135,19 @@ pub mod iter {
     pub trait ToIter<T> { fn to_iter(self) -> Iter<T>; }
     impl<T> ToIter<T> for Iter<T> {
         fn to_iter(self) -> (r: Iter<T>) ensures r == self { self }
+    }
+    // some real std iterators (items unconstrained)
+    impl<'a> ToIter<char> for ::std::str::Chars<'a> {
+        #[verifier::external_body]
+        fn to_iter(self) -> (r: Iter<char>) { unimplemented!() }
+    }
+    impl<'a, T> ToIter<&'a T> for ::std::slice::Iter<'a, T> {
+        #[verifier::external_body]
+        fn to_iter(self) -> (r: Iter<&'a T>) { unimplemented!() }
+    }
+    impl ToIter<usize> for ::std::ops::Range<usize> {
+        #[verifier::external_body]
+        fn to_iter(self) -> (r: Iter<usize>) { unimplemented!() }
     }
     impl<T> ToIter<T> for Vec<T> {
         #[verifier::external_body]
